@@ -34,7 +34,9 @@ func main() {
 	if *replay != "" {
 		// a replay file carries its own mode: bind cases have a "kind"
 		if b, err := os.ReadFile(*replay); err == nil {
-			if strings.Contains(string(b), "\"kind\"") {
+			if strings.Contains(string(b), "\"honest_results\"") {
+				*mode = "history"
+			} else if strings.Contains(string(b), "\"kind\"") {
 				*mode = "bind"
 			} else {
 				*mode = "merkle"
@@ -46,6 +48,8 @@ func main() {
 		mainMerkle(*seed, *maxN, *full, *rounds, *out, *replay)
 	case "bind":
 		mainBind(*seed, *rounds, *out, *replay)
+	case "history":
+		mainHistory(*seed, *rounds, *out, *replay)
 	default:
 		fmt.Fprintln(os.Stderr, "unknown mode")
 		os.Exit(2)
